@@ -23,6 +23,8 @@ static void* build(int nrowentries, long vnum, long vden)
    SoPlex_setRational(s);
    SoPlex_setIntParam(s, soplex::SoPlex::OBJSENSE, soplex::SoPlex::OBJSENSE_MINIMIZE);
    SoPlex_setIntParam(s, soplex::SoPlex::VERBOSITY, 0);
+   /* (the presolver copies an uninitialised VarStatus in FixVariablePS::execute, which UBSan flags; not our subject) */
+   SoPlex_setIntParam(s, soplex::SoPlex::SIMPLIFIER, soplex::SoPlex::SIMPLIFIER_OFF);
    long none = 0, one = 1;
 
    for(int j = 0; j < nrowentries; j++)
